@@ -297,8 +297,12 @@ func (s *SwapStateMachine) Recover() (bool, error) {
 		return false, ErrFsmConfig
 	}
 
+	// The swap is already in the active map: hold its mutex like SendEvent
+	// does, messages for it may arrive while it is being recovered.
+	s.mutex.Lock()
 	nextEvent := state.Action.Execute(s.swapServices, s.Data)
 	err := s.swapServices.swapStore.UpdateData(s)
+	s.mutex.Unlock()
 	if err != nil {
 		return false, err
 	}
